@@ -28,11 +28,12 @@ HOOK_EVENTS = ["Append", "FlushWait", "FlushPrepare", "PubRead", "FlushFail", "F
 GATES = ["append", "flush", "upseg", "upidx", "updone", "pubread", "publish"]
 MBS = [0, 9, 80, 200]
 QUICK_MC = {"C01": ["MC_Log_quick.cfg", "MC_Log_inline_quick.cfg"], "C02": ["MC_Log_quick.cfg", "MC_Log_shapes_quick.cfg"],
-            "C03": ["MC_Log_read_quick.cfg", "MC_Log_crashread_quick.cfg"], "C04": ["MC_Log_read_quick.cfg", "MC_Log_crashread_quick.cfg", "MC_Log_idxloss_quick.cfg"],
+            "C03": ["MC_Log_read_quick.cfg", "MC_Log_crashread_quick.cfg", "MC_Log_async_quick.cfg"], "C04": ["MC_Log_read_quick.cfg", "MC_Log_crashread_quick.cfg", "MC_Log_idxloss_quick.cfg"],
             "C05": ["MC_Log_quick.cfg", "MC_Log_inline_quick.cfg"], "C06": ["MC_Log_quick.cfg", "MC_Log_crashread_quick.cfg", "MC_Log_idxloss_quick.cfg"]}
-ALL_QUICK = ["MC_Log_quick.cfg", "MC_Log_inline_quick.cfg", "MC_Log_read_quick.cfg", "MC_Log_crashread_quick.cfg", "MC_Log_shapes_quick.cfg", "MC_Log_idxloss_quick.cfg"]
+ALL_QUICK = ["MC_Log_async_quick.cfg", "MC_Log_quick.cfg", "MC_Log_inline_quick.cfg", "MC_Log_read_quick.cfg", "MC_Log_crashread_quick.cfg", "MC_Log_shapes_quick.cfg", "MC_Log_idxloss_quick.cfg"]
 THOROUGH_MC = ALL_QUICK + ["MC_Log_thorough.cfg", "MC_Log_3p_thorough.cfg", "MC_Log_k3_thorough.cfg", "MC_Log_read_thorough.cfg", "MC_Log_readfault_thorough.cfg"]
-SIMS = {"Sim_Log_a.cfg": (0, 1), "Sim_Log_b.cfg": (2, 2), "Sim_Log_c.cfg": (3, 3), "Sim_Log_d.cfg": (0, 2), "Sim_Log_e.cfg": (0, 3)}  # d: 8 producers, many batches per segment
+SIMS = {"Sim_Log_a.cfg": (0, 1), "Sim_Log_b.cfg": (2, 2), "Sim_Log_c.cfg": (3, 3), "Sim_Log_d.cfg": (0, 2), "Sim_Log_e.cfg": (0, 3), "Sim_Log_f.cfg": (2, 2)}
+ASYNC_SIMS = {"Sim_Log_f.cfg"}  # flush-on-ack off  # d: 8 producers, many batches per segment
 DEV_PARAMS = {"NoRange": (0, 2), "TolerateLostIdx": (0, 2)}
 
 
@@ -72,13 +73,13 @@ def gen_schedules(ctx, d):
             raise Broken("deviation %s no longer violates %s in the model (vacuous deviation)" % (name, devs[name]))
         inline, interval = DEV_PARAMS.get(name, (0, 1))
         for cache in (True, False):
-            scheds.append({"inline": inline, "interval": interval, "cache": cache, "mbs": MBS, "steps": h})
+            scheds.append({"inline": inline, "interval": interval, "cache": cache, "sync": True, "mbs": MBS, "steps": h})
             labels.append("dev:" + name)
     nsim = 40 if ctx.quick() else 600
     for i, (cfg, (inline, interval)) in enumerate(sorted(SIMS.items())):
         hs, _ = T.simulate_hists(ctx, d, "MC_Log.tla", cfg, num=nsim, depth=45, seed=ctx.seed * 7 + i, timeout=900)
         for j, h in enumerate(hs):
-            scheds.append({"inline": inline, "interval": interval, "cache": (j % 2 == 0), "mbs": MBS, "steps": h})
+            scheds.append({"inline": inline, "interval": interval, "cache": (j % 2 == 0), "sync": cfg not in ASYNC_SIMS, "mbs": MBS, "steps": h})
             labels.append("sim:" + cfg[8])
     return scheds, labels, sorted(devs)
 
@@ -91,6 +92,7 @@ TRACE_CFG = """CONSTANTS
  MaxFaults = 1000
  MaxCrashes = 1000
  MaxIdxLoss = 1000
+ SyncFlush = %s
  InlineAt = %d
  Interval = %d
  MBs = {0}
@@ -118,18 +120,20 @@ CHECK_DEADLOCK FALSE
 def conformance(ctx, scheds, runs):
     """Layer C, one TLC start per (InlineAt, Interval) group."""
     conf = {"accepted": 0, "rejected_groups": 0, "first_rejection": None, "lines": 0}
-    groups = sorted({(s["inline"], s["interval"]) for s in scheds})
-    for (inl, itv) in groups:
-        sub = [r for i, run in enumerate(runs) if (scheds[i]["inline"], scheds[i]["interval"]) == (inl, itv) for r in run]
-        reached, total, res = layers.conform(ctx, DIR, "MC_Trace_Log.tla", "Trace_Log.cfg", sub, name="conf-%d-%d" % (inl, itv), cfg_text=TRACE_CFG % (inl, itv, FIX_INDEX_SEARCH), timeout=1800)
+    key = lambda s: (s["inline"], s["interval"], bool(s.get("sync", True)))
+    groups = sorted({key(s) for s in scheds})
+    for (inl, itv, sync) in groups:
+        sub = [r for i, run in enumerate(runs) if key(scheds[i]) == (inl, itv, sync) for r in run]
+        reached, total, res = layers.conform(ctx, DIR, "MC_Trace_Log.tla", "Trace_Log.cfg", sub, name="conf-%d-%d-%d" % (inl, itv, sync),
+                                             cfg_text=TRACE_CFG % ("TRUE" if sync else "FALSE", inl, itv, FIX_INDEX_SEARCH), timeout=1800)
         conf["lines"] += total
         if reached == total:
-            conf["accepted"] += sum(1 for s in scheds if (s["inline"], s["interval"]) == (inl, itv))
+            conf["accepted"] += sum(1 for s in scheds if key(s) == (inl, itv, sync))
         else:
             conf["rejected_groups"] += 1
             if conf["first_rejection"] is None:
                 nxt = sub[reached] if reached < len(sub) else None
-                conf["first_rejection"] = {"group": [inl, itv], "consumed": reached, "of": total,
+                conf["first_rejection"] = {"group": [inl, itv, sync], "consumed": reached, "of": total,
                                            "next_line": {k: v for k, v in (nxt or {}).items() if k != "reads"}}
                 start = max(j for j in range(min(reached, len(sub) - 1) + 1) if sub[j]["ev"] == "Reset")
                 save_replay(ctx.prop, "drift-trace.json", {"rejected_line": nxt, "trace_so_far": sub[start:reached + 1]})
@@ -246,7 +250,7 @@ def self_test(ctx, runs):
     confrej = False
     if tgt2:
         tgt2[-1]["st"]["next"] += 1
-        c = conformance(ctx, [{"inline": bad[0]["inline"], "interval": bad[0]["interval"]}], [bad])
+        c = conformance(ctx, [{"inline": bad[0]["inline"], "interval": bad[0]["interval"], "sync": bad[0].get("sync", True)}], [bad])
         confrej = c["rejected_groups"] == 1
         if not confrej:
             raise Broken("binding self-test: conformance layer accepted a corrupted nextOffset in a FlushCommit line")
